@@ -24,6 +24,9 @@ func MapOrder(on bool)                                            {}
 // MapOrderMax: only maps with at most n entries are iterated in every order (default 4).
 func MapOrderMax(n int) {}
 
+// MapOrderSite: only the site-th range-over-map instruction of knut's code iterates in every order, for its first `budget` executions.
+func MapOrderSite(site, budget int) {}
+
 func Concrete(x int) int                                          { return x }
 func Assume(c bool)                                               {}
 func Assert(c bool, label string)                                 {}
@@ -41,3 +44,4 @@ func FSOps() int                             { return 0 }
 func FSWrites(name string) int               { return 0 }
 func FSOthers() int                          { return 0 }
 func FSSymlink(name string)                  {}
+func CaptureStdout(f func()) string          { return "" }
